@@ -8,5 +8,8 @@ CONSTANTS
   Spans = {0, 1}
   YieldSets = {{}, {1}, {0, 2}}
   SplitKinds = {0}
+  TailSplitKinds = {0}
+  LateKinds = {0}
+  EmptyFeeds = TRUE
   Interleave = FALSE
 INVARIANTS TypeOK Lossless Contiguous FitsBudget SmallIsPure YieldStartsNewBatch
